@@ -26,9 +26,9 @@ from pytato.array import DataWrapper, DictOfNamedArrays
 from pytato.equality import EqualityComparer
 
 from pyvc.core import Contract, contract
-from pyvc.graphmodel import (R, SymVal, _OpaqueMixin, build,
-                             congruence_assumptions, field_relations,
-                             mk_opaque_array, node_classes)
+from pyvc.graphmodel import (CHILDMAP, CHILDMAP_S, R, SymVal, _OpaqueMixin,
+                             build, classify, congruence_assumptions,
+                             field_relations, mk_opaque_array, node_classes)
 from pyvc.sym import (EngineFault, EngineSignal, OutsideSubset, SymBool, mk_bool,
                       z_of)
 
@@ -402,8 +402,17 @@ class HashFields(Contract):
     def instances(self, tier):
         from pytato.array import CSRMatrix
         from pytato.distributed.nodes import DistributedSend
-        return [dict(label=c.__name__, cls=c.__name__)
-                for c in [*eq_classes(), CSRMatrix, DistributedSend]]
+        out = [dict(label=c.__name__, cls=c.__name__)
+               for c in [*eq_classes(), CSRMatrix, DistributedSend]]
+        # mappings compare by key, so they must hash by key too: the same
+        # entries inserted in another order (equal nodes, "equal expressions
+        # hash equally")
+        for c in eq_classes():
+            if any(classify(c, f) in (CHILDMAP, CHILDMAP_S)
+                   for f in dataclasses.fields(c)):
+                out.append(dict(label=f"{c.__name__};keys-permuted",
+                                cls=c.__name__, permuted=True))
+        return out
 
     def canaries(self, tier):
         return [(dict(label="Roll", cls="Roll"), "forget-axis",
@@ -416,7 +425,8 @@ class HashFields(Contract):
         cfg = dict(n_children=2, shape=["int", "arr"],
                    indices=["int", "arr"], keys=["_in0", "x"])
         b1 = build(cls, "e1", "sym", cfg)
-        b2 = build(cls, "e2", "sym", cfg)
+        b2 = build(cls, "e2", "sym", dict(cfg, keys=["x", "_in0"])
+                   if inst.get("permuted") else cfg)
         HV = z3.Function("hash_of_value", z3.DeclareSort("U"), z3.IntSort())
         tup = {}
 
@@ -484,9 +494,46 @@ class HashFields(Contract):
 
 
     def replay(self, inst, clause, model, info):
+        if inst.get("permuted") and clause.startswith("hash.only-eq-fields"):
+            return HASH_PERMUTED_REPLAY.format(cls=inst["cls"])
         if not clause.startswith("getstate."):
             return None
         return HASH_REPLAY.format(cls=inst["cls"])
+
+
+HASH_PERMUTED_REPLAY = '''
+import sys, dataclasses
+from collections.abc import Mapping
+sys.path.insert(0, "/verif"); sys.path.append("/verif/.deps")
+from pyvc.replay_nodes import sample_node
+from pyvc.replaylib import reproduced, not_reproduced
+cls = {cls!r}
+tried = 0
+samples = list(sample_node(cls))
+if cls == "LoopyCall":
+    import numpy as np, pytato as pt
+    from pyvc import mapperlib as ml
+    from pytato.loopy import call_loopy
+    x = pt.make_placeholder("x", (10,), np.float64)
+    samples = [call_loopy(ml.loopy_tunit(), {{"x": x, "y": 3.5}}, "knl")]
+for n in samples:
+    for f in dataclasses.fields(n):
+        v = getattr(n, f.name)
+        if not isinstance(v, Mapping) or len(v) < 2:
+            continue
+        rev = type(v)(list(v.items())[::-1])
+        try:
+            m = dataclasses.replace(n, **{{f.name: rev}})
+        except TypeError:
+            m = type(n)(rev, tags=n.tags)       # DictOfNamedArrays(data, tags)
+        tried += 1
+        if m == n and hash(m) != hash(n):
+            reproduced(f"two {{cls}} nodes whose '{{f.name}}' holds the same entries "
+                       f"inserted in opposite order ({{list(v)}} / {{list(rev)}}) "
+                       f"compare equal but hash differently "
+                       f"({{hash(n)}} vs {{hash(m)}})")
+not_reproduced(f"equal and equally hashed ({{tried}} permuted rebuilds)")
+'''
 
 
 HASH_REPLAY = '''
